@@ -7,19 +7,21 @@ out unterminated str[2] u; out int{unsigned, size 1} z2 = 165;
 out raw{uint16_t} r; out int{unsigned, size 1} z3 = 165;
 out str[3] s = "ab"; out int{unsigned, size 1} z4 = 165;
 out str[4] t = "q"; out int{unsigned, size 1} z5 = 165;
+out str[3] e0 = ""; out int{unsigned, size 1} z6 = 165;
 out int{unsigned, size 1} n = 0; hook h;
 """
-SENT = {"z1": 165, "z2": 165, "z3": 165, "z4": 165, "z5": 165}
+SENT = {"z1": 165, "z2": 165, "z3": 165, "z4": 165, "z5": 165, "z6": 165}
 
 OPS = {
     "a": 'p += [65];', "b": 'delete p;', "c": 'p = "k";', "d": 'u += [66];', "e": 'u = "hi";', "f": 'r += [1];', "g": 's += [67];',
     "i": 's = "";', "j": 'n = [p.len + u.len + r.len + s.len + t.len]; h();', "k": 'if s.len > 0 { n = [s[0]]; } else { n = [s[7] + p[2] + u[2]]; } h();',
     "l": 'p += "xy";', "m": 'delete u; delete r;', "o": 's = "ab";', "q": 't += /[xy]/;', "v": 'delete t; t += [n + 65];', "w": 'u += "x";',
     "n": 'n = [p[p.len - 1] + u[u.len - 3] + t[n - 200]]; h();',
+    "4": 'e0 += [69];', "5": 'n = [e0.len + e0[0]]; h();',
     "1": 'if p.len > 0 && p[0] == \'A\' { p = ""; } else { p += [90]; }', "2": 't = "abc";', "3": 'delete s; s += [s.len + 48];',
 }
-SETS = ["abcjl", "defjmw", "giokj", "adfgj", "abcij1", "qv2j3", "lwqbmj", "a1c3eo", "anbdm", "qnv2"]
-HANDLER = "delete p; delete u; delete r; delete s; delete t; n = [n + 1]; h();"
+SETS = ["abcjl", "defjmw", "giokj", "adfgj", "abcij1", "qv2j3", "lwqbmj", "a1c3eo", "anbdm", "qnv2", "45gj"]
+HANDLER = "delete p; delete u; delete r; delete s; delete t; delete e0; n = [n + 1]; h();"
 
 
 # operations placed before the first match: they become start actions and run inside start(), after the defaults were stored
